@@ -590,6 +590,9 @@ def monitor_verdicts(rec, input_bytes, residual=True, entry=None):
 
 def miri_site(stderr):
     """first frame of a Miri report that lies in the tree under test"""
+    k = re.search(r"error: (Undefined Behavior|memory leaked|unsupported operation)", stderr)
+    if k:
+        stderr = stderr[k.start():]       # compiler warnings about the tree printed before the report also carry "--> file:line"
     for m in re.finditer(r"(?:-->|at|inside `[^`]*` at) (\S+?):(\d+):\d+", stderr):
         path, line = m.group(1), int(m.group(2))
         if path.startswith(REPO + "/"):
